@@ -1,1 +1,337 @@
-//! Loopback S3 simulator (filled in with C15b/C17/C18).
+//! Loopback S3 simulator: one tiny_http server per process, requests routed to per-site scopes
+//! (each scenario owns a unique site id), every request logged by the scope that answers it.
+
+use std::collections::HashMap;
+use std::sync::atomic::{AtomicU64, Ordering};
+use std::sync::{Arc, Mutex, OnceLock};
+
+pub const REALTIME_BUCKET: &str = "unidata-nexrad-level2-chunks";
+pub const ARCHIVE_BUCKET: &str = "noaa-nexrad-level2";
+
+#[derive(Clone, Debug)]
+pub struct Req {
+    pub n: u64,
+    pub raw: String,
+    pub bucket: String,
+    /// Object key for GET-object requests (percent-decoded), None for bucket listings.
+    pub key: Option<String>,
+    /// Key exactly as it appeared on the wire (still percent-encoded).
+    pub raw_key: Option<String>,
+    pub query: Vec<(String, String)>,
+}
+
+impl Req {
+    pub fn q(&self, name: &str) -> Option<&str> {
+        self.query
+            .iter()
+            .find(|(k, _)| k == name)
+            .map(|(_, v)| v.as_str())
+    }
+    pub fn is_list(&self) -> bool {
+        self.key.is_none()
+    }
+}
+
+#[derive(Clone, Debug)]
+pub struct Resp {
+    pub status: u16,
+    pub headers: Vec<(String, String)>,
+    pub body: Vec<u8>,
+}
+
+impl Resp {
+    pub fn status(status: u16) -> Self {
+        Resp {
+            status,
+            headers: vec![],
+            body: format!("<Error><Code>{}</Code></Error>", status).into_bytes(),
+        }
+    }
+    pub fn xml(body: String) -> Self {
+        Resp {
+            status: 200,
+            headers: vec![("Content-Type".into(), "application/xml".into())],
+            body: body.into_bytes(),
+        }
+    }
+    pub fn object(body: Vec<u8>, last_modified_rfc2822: Option<String>) -> Self {
+        let mut headers = vec![("Content-Type".into(), "binary/octet-stream".into())];
+        if let Some(lm) = last_modified_rfc2822 {
+            headers.push(("Last-Modified".into(), lm));
+        }
+        Resp {
+            status: 200,
+            headers,
+            body,
+        }
+    }
+}
+
+pub trait Scope: Send {
+    fn handle(&mut self, req: &Req) -> Resp;
+}
+
+pub struct Sim {
+    pub port: u16,
+    scopes: Mutex<HashMap<String, Arc<Mutex<dyn Scope>>>>,
+    counter: AtomicU64,
+    pub unrouted: AtomicU64,
+}
+
+pub fn percent_decode(s: &str) -> String {
+    let b = s.as_bytes();
+    let mut out = Vec::with_capacity(b.len());
+    let mut i = 0;
+    while i < b.len() {
+        if b[i] == b'%' && i + 2 < b.len() {
+            let h = (b[i + 1] as char).to_digit(16);
+            let l = (b[i + 2] as char).to_digit(16);
+            if let (Some(h), Some(l)) = (h, l) {
+                out.push((h * 16 + l) as u8);
+                i += 3;
+                continue;
+            }
+        }
+        out.push(b[i]);
+        i += 1;
+    }
+    String::from_utf8_lossy(&out).to_string()
+}
+
+pub fn parse_url(raw: &str, n: u64) -> Req {
+    let (path, query) = match raw.split_once('?') {
+        Some((p, q)) => (p, q),
+        None => (raw, ""),
+    };
+    let path = path.trim_start_matches('/');
+    let (bucket, key) = match path.split_once('/') {
+        Some((b, k)) if !k.is_empty() => (b.to_string(), Some(k.to_string())),
+        Some((b, _)) => (b.to_string(), None),
+        None => (path.to_string(), None),
+    };
+    let query = query
+        .split('&')
+        .filter(|s| !s.is_empty())
+        .map(|kv| match kv.split_once('=') {
+            Some((k, v)) => (percent_decode(k), percent_decode(&v.replace('+', " "))),
+            None => (percent_decode(kv), String::new()),
+        })
+        .collect();
+    Req {
+        n,
+        raw: raw.to_string(),
+        bucket,
+        raw_key: key.clone(),
+        key: key.map(|k| percent_decode(&k)),
+        query,
+    }
+}
+
+/// Site a request belongs to (scenario routing key).
+pub fn site_of(req: &Req) -> Option<String> {
+    let text = match &req.key {
+        Some(k) => k.clone(),
+        None => req.q("prefix")?.to_string(),
+    };
+    let mut segs = text.split('/');
+    if req.bucket == ARCHIVE_BUCKET {
+        // YYYY/MM/DD/SITE...
+        segs.nth(3).map(|s| s.chars().take(4).collect())
+    } else {
+        segs.next().map(|s| s.to_string())
+    }
+}
+
+impl Sim {
+    fn start(workers: usize) -> &'static Sim {
+        let server = tiny_http::Server::http("127.0.0.1:0").expect("bind loopback simulator");
+        let port = server
+            .server_addr()
+            .to_ip()
+            .map(|a| a.port())
+            .expect("ip listener");
+        let sim: &'static Sim = Box::leak(Box::new(Sim {
+            port,
+            scopes: Mutex::new(HashMap::new()),
+            counter: AtomicU64::new(0),
+            unrouted: AtomicU64::new(0),
+        }));
+        let server = Arc::new(server);
+        for _ in 0..workers {
+            let server = server.clone();
+            std::thread::spawn(move || loop {
+                let rq = match server.recv() {
+                    Ok(r) => r,
+                    Err(_) => break,
+                };
+                let n = sim.counter.fetch_add(1, Ordering::SeqCst);
+                let req = parse_url(rq.url(), n);
+                let scope = site_of(&req).and_then(|s| sim.scopes.lock().ok()?.get(&s).cloned());
+                let resp = match scope {
+                    Some(sc) => match sc.lock() {
+                        Ok(mut g) => g.handle(&req),
+                        Err(_) => Resp::status(500),
+                    },
+                    None => {
+                        sim.unrouted.fetch_add(1, Ordering::SeqCst);
+                        Resp::status(404)
+                    }
+                };
+                let mut r = tiny_http::Response::from_data(resp.body).with_status_code(resp.status);
+                for (k, v) in resp.headers {
+                    if let Ok(h) = tiny_http::Header::from_bytes(k.as_bytes(), v.as_bytes()) {
+                        r = r.with_header(h);
+                    }
+                }
+                let _ = rq.respond(r);
+            });
+        }
+        sim
+    }
+
+    pub fn endpoint(&self) -> String {
+        format!("http://127.0.0.1:{}", self.port)
+    }
+
+    pub fn register(&self, site: &str, scope: Arc<Mutex<dyn Scope>>) {
+        if let Ok(mut m) = self.scopes.lock() {
+            m.insert(site.to_string(), scope);
+        }
+    }
+
+    pub fn unregister(&self, site: &str) {
+        if let Ok(mut m) = self.scopes.lock() {
+            m.remove(site);
+        }
+    }
+}
+
+static SIM: OnceLock<&'static Sim> = OnceLock::new();
+
+/// The process-wide simulator; the first call starts it and points the repository's
+/// `verif-hooks` endpoint override at it.
+pub fn global() -> &'static Sim {
+    SIM.get_or_init(|| {
+        let sim = Sim::start(24);
+        std::env::set_var("NEXRAD_VERIF_S3_ENDPOINT", sim.endpoint());
+        sim
+    })
+}
+
+static SITE_COUNTER: AtomicU64 = AtomicU64::new(0);
+
+/// A fresh four-character site id (base 36, first character a letter).
+pub fn fresh_site() -> String {
+    let n = SITE_COUNTER.fetch_add(1, Ordering::SeqCst);
+    let digits = b"0123456789ABCDEFGHIJKLMNOPQRSTUVWXYZ";
+    let mut s = String::new();
+    s.push((b'A' + (n / (36 * 36 * 36) % 26) as u8) as char);
+    s.push(digits[(n / (36 * 36) % 36) as usize] as char);
+    s.push(digits[(n / 36 % 36) as usize] as char);
+    s.push(digits[(n % 36) as usize] as char);
+    s
+}
+
+// ---------------------------------------------------------------------------------------------
+// Bucket model and ListObjectsV2 rendering
+// ---------------------------------------------------------------------------------------------
+
+#[derive(Clone, Debug)]
+pub struct Obj {
+    pub key: String,
+    /// RFC 3339 text exactly as the listing shows it.
+    pub last_modified: String,
+    /// Size text exactly as the listing shows it (may be unparsable on purpose).
+    pub size: String,
+}
+
+pub fn xml_escape(s: &str) -> String {
+    let mut o = String::with_capacity(s.len());
+    for c in s.chars() {
+        match c {
+            '&' => o.push_str("&amp;"),
+            '<' => o.push_str("&lt;"),
+            '>' => o.push_str("&gt;"),
+            '"' => o.push_str("&quot;"),
+            '\'' => o.push_str("&apos;"),
+            c => o.push(c),
+        }
+    }
+    o
+}
+
+/// Render a ListObjectsV2 response the way S3 does (entity-escaped text, sibling elements).
+pub fn list_xml(bucket: &str, prefix: &str, objs: &[&Obj], truncated: bool, max_keys: usize, pretty: bool) -> String {
+    let nl = if pretty { "\n  " } else { "" };
+    let nl2 = if pretty { "\n    " } else { "" };
+    let mut s = String::new();
+    s.push_str("<?xml version=\"1.0\" encoding=\"UTF-8\"?>");
+    if pretty {
+        s.push('\n');
+    }
+    s.push_str("<ListBucketResult xmlns=\"http://s3.amazonaws.com/doc/2006-03-01/\">");
+    s.push_str(&format!("{nl}<Name>{}</Name>", xml_escape(bucket)));
+    s.push_str(&format!("{nl}<Prefix>{}</Prefix>", xml_escape(prefix)));
+    s.push_str(&format!("{nl}<KeyCount>{}</KeyCount>", objs.len()));
+    s.push_str(&format!("{nl}<MaxKeys>{}</MaxKeys>", max_keys));
+    s.push_str(&format!("{nl}<IsTruncated>{}</IsTruncated>", truncated));
+    for o in objs {
+        s.push_str(&format!("{nl}<Contents>"));
+        s.push_str(&format!("{nl2}<Key>{}</Key>", xml_escape(&o.key)));
+        s.push_str(&format!("{nl2}<LastModified>{}</LastModified>", o.last_modified));
+        s.push_str(&format!("{nl2}<ETag>&quot;0123456789abcdef0123456789abcdef&quot;</ETag>"));
+        s.push_str(&format!("{nl2}<Size>{}</Size>", o.size));
+        s.push_str(&format!("{nl2}<StorageClass>STANDARD</StorageClass>"));
+        s.push_str(&format!("{nl}</Contents>"));
+    }
+    if pretty {
+        s.push('\n');
+    }
+    s.push_str("</ListBucketResult>");
+    s
+}
+
+/// Objects whose key begins with `prefix`, in bucket (byte-lexicographic) order, cut at
+/// min(max_keys, 1000); returns (selected, truncated).
+pub fn select<'a>(sorted: &'a [Obj], prefix: &str, max_keys: Option<usize>) -> (Vec<&'a Obj>, bool, usize) {
+    let limit = max_keys.unwrap_or(1000).min(1000);
+    let all: Vec<&Obj> = sorted.iter().filter(|o| o.key.starts_with(prefix)).collect();
+    let truncated = all.len() > limit;
+    (all.into_iter().take(limit).collect(), truncated, limit)
+}
+
+pub fn rfc2822(epoch_s: i64) -> String {
+    let c = crate::cal::civil_from_epoch_ms(epoch_s * 1000);
+    let days = epoch_s.div_euclid(86_400);
+    let wd = ["Thu", "Fri", "Sat", "Sun", "Mon", "Tue", "Wed"][(days.rem_euclid(7)) as usize];
+    let mon = ["Jan", "Feb", "Mar", "Apr", "May", "Jun", "Jul", "Aug", "Sep", "Oct", "Nov", "Dec"][(c.month - 1) as usize];
+    format!(
+        "{}, {:02} {} {:04} {:02}:{:02}:{:02} GMT",
+        wd, c.day, mon, c.year, c.hour, c.minute, c.second
+    )
+}
+
+pub fn rfc3339(epoch_ms: i64, fractional: bool) -> String {
+    let c = crate::cal::civil_from_epoch_ms(epoch_ms);
+    if fractional {
+        format!(
+            "{:04}-{:02}-{:02}T{:02}:{:02}:{:02}.{:03}Z",
+            c.year, c.month, c.day, c.hour, c.minute, c.second, c.milli
+        )
+    } else {
+        format!(
+            "{:04}-{:02}-{:02}T{:02}:{:02}:{:02}Z",
+            c.year, c.month, c.day, c.hour, c.minute, c.second
+        )
+    }
+}
+
+/// Current-thread tokio runtime, optionally with the clock paused (virtual time).
+pub fn block_on<F: std::future::Future>(paused: bool, f: F) -> F::Output {
+    let rt = tokio::runtime::Builder::new_current_thread()
+        .enable_all()
+        .start_paused(paused)
+        .build()
+        .expect("tokio runtime");
+    rt.block_on(f)
+}
